@@ -162,6 +162,9 @@ class Check:
     def execute(self, case: dict):
         raise NotImplementedError
 
+    # every k-th case is run once more under "python -O" (quick, thorough); 0 = no such pass
+    optimized_stride = (4, 16)
+
     def setup_worker(self):
         """Called once in every worker process before the first case."""
 
@@ -249,6 +252,11 @@ def run_check(check: Check, tier: str, seed: int, replay: str | None = None) -> 
     deadline = t0 + budget
 
     all_cases = list(check.cases(tier, seed))
+    opt_dump = os.environ.get("YAWVERIF_OPTPASS")
+    if opt_dump:
+        # child of the optimised-interpreter pass (python -O): a stride of the cases, raw results to the parent
+        stride = max(1, int(os.environ.get("YAWVERIF_OPTSTRIDE", "4")))
+        all_cases = all_cases[::stride]
     results = []
     with Scratch(f"{check.id}-res") as tmp:
         if nshards <= 1:
@@ -284,7 +292,44 @@ def run_check(check: Check, tier: str, seed: int, replay: str | None = None) -> 
                     continue
                 results.extend(json.loads(out.read_text()))
 
-    return finish(check, tier, seed, len(all_cases), results, time.time() - t0)
+    if opt_dump:
+        Path(opt_dump).write_text(json.dumps(jsonable(results)))
+        return 0
+    n_cases = len(all_cases)
+    stride = check.optimized_stride[tidx] if getattr(check, "optimized_stride", None) else 0
+    if stride:
+        # the same cases (every stride-th) once more in an interpreter started with -O: assert statements are
+        # removed there, so behaviour that leans on them changes (a legitimate way to run the library)
+        import subprocess
+
+        with Scratch(f"{check.id}-opt") as otmp:
+            dump = otmp / "results.json"
+            env = dict(os.environ, YAWVERIF_OPTPASS=str(dump), YAWVERIF_OPTSTRIDE=str(stride))
+            env.pop("PYTHONOPTIMIZE", None)
+            try:
+                p = subprocess.run([sys.executable, "-O", "-m", "vlib.main", check.id, "--tier", tier, "--seed", str(seed)],
+                                   env=env, capture_output=True, text=True, timeout=budget * 3 + 300)
+                opt_results = json.loads(dump.read_text()) if dump.exists() else None
+            except subprocess.TimeoutExpired:
+                opt_results, p = None, None
+            if opt_results is None:
+                results.append(dict(status=ERROR, detail=f"optimised-interpreter pass produced no results: {(p.stderr[-400:] if p else 'timeout')}",
+                                    nontrivial=False, key="optpass", cls="optpass", counters={}, mechanism=None, sample=None, case={}))
+            else:
+                n_opt = 0
+                for r in opt_results:
+                    if r.get("status") == "truncated":
+                        continue  # the pass is a sample anyway
+                    r["cls"] = f"{r.get('cls', 'default')}[python -O]"
+                    r["key"] = f"{r.get('key')}[O]"
+                    if r.get("status") == VIOLATED:
+                        r["mechanism"] = f"{r.get('mechanism')}[python -O]"
+                    r["counters"] = {f"{k}": v for k, v in (r.get("counters") or {}).items()}
+                    n_opt += 1
+                    results.append(r)
+                results.append(dict(status=HELD, nontrivial=False, key="optpass-summary", cls="optpass", mechanism=None, detail=None,
+                                    sample=None, case={}, counters=dict(optimised_interpreter_results=n_opt)))
+    return finish(check, tier, seed, n_cases, results, time.time() - t0)
 
 
 def finish(check: Check, tier, seed, n_cases, results, wall) -> int:
